@@ -1,36 +1,169 @@
 """C11 -- variable-length values are encoded and decoded without loss.
 
 Correspondence: numpy's can_cast / promote_types / result_type tables (exhaustive),
-serialize_vlen_property_data, deserialize_vlen_property_data and
-construct_var_len_props against Vlen.v evaluated in Coq.
+serialize_vlen_property_data, deserialize_vlen_property_data, construct_var_len_props and
+the composed path construct -> serialize -> deserialize against VlenX.v (dtype identity:
+byte order, string width, object dtype; `missing` carried through) evaluated in Coq.
 Oracle: written from the property text with numpy only.
 """
 from __future__ import annotations
 
 import itertools
+import math
 import random
+from fractions import Fraction
 
 import numpy as np
 
-from harness.common import (Failure, cbool, cdtype, clist, cnat, copt, cres, cz, dtype_name, enc_array,
+from harness.common import (Failure, HarnessError, big_endian, cbool, clist, cnat, copt, cz, dtype_name,
                             exn_name, relayout, DTYPE_COQ, LAYOUTS)
 
 PROP = "C11"
 NUM = ["bool", "int8", "int16", "int32", "int64", "uint8", "uint16", "uint32", "uint64",
        "float16", "float32", "float64"]
-RULE = ("exhaustive dtype tables (can_cast, promote_types: all 144 pairs; result_type: all multisets of size<=3) + "
+RULE = ("exhaustive dtype tables (can_cast, promote_types: all 144 pairs; result_type: all 4095 non-empty subsets of the 12 numeric "
+        "dtypes in 1 (quick) / 3 (thorough) orders + all multisets of size<=3) + descriptor tables (byte order, widths, object) + "
         "bounded-exhaustive shape sequences (n<=2, rank<=2, dims 0..2) + seeded random sequences (n<=6, rank 0..3, "
-        "dims 0..3, every numeric dtype, boundary values) + ragged inputs with all permutations for n<=4; "
+        "dims 0..3, every numeric dtype in either byte order, str/bytes of several widths, object arrays, boundary values, "
+        "NaN/inf/-0.0/non-dyadic floats as value tokens, any missing mask) + ragged inputs with all permutations for n<=4, each "
+        "also through the whole path construct->serialize->deserialize; "
         "non-trivial = at least one non-empty element or an error outcome; distinct by structural input")
 EXHAUSTIVE_BLOCKS = ["np.can_cast over all ordered pairs of 12 numeric dtypes",
                      "np.promote_types over all ordered pairs of 12 numeric dtypes",
                      "np.result_type over all multisets of size 1..3 of 12 numeric dtypes",
-                     "serialize/deserialize over all sequences of <=2 int16 arrays with rank<=2 and dims in 0..2"]
+                     "np.result_type over all 4095 non-empty subsets of the 12 numeric dtypes (the model is a function of the set)",
+                     "np.can_cast over all ordered pairs of 12 numeric dtypes with every byte-order combination, to and from object, "
+                     "str/bytes widths 1..3",
+                     "serialize/deserialize over all sequences of <=2 int16 arrays with rank<=2 and dims in 0..2",
+                     "serialize over all ordered pairs of {<i4, >i4, |i1(swapped request), <U1, >U1, <U3, S1, S3, object, <f2, >f2}"]
 ASSUMPTIONS = [
     "np.asarray on user input (nested lists, scalars) is the abstraction boundary: the model starts from the resulting arrays",
-    "string / bytes / object elements are outside the Coq model (oracle-only)",
-    "float payloads are exact multiples of 2^-10 (generator guarantees it)",
+    "a sequence element that is not a numpy array (serialize only: a Python list among arrays) has no counterpart in the Coq "
+    "input type (every element of `list xvarr` is an array): such cases are oracle-only (expected ValueError)",
+    "strings / bytes are opaque tokens in Coq (injective integer encoding of the text); an item of an object array is "
+    "8*payload+tag (int 0, float 1, bool 2, str 3, None 4, bytes 5); other Python objects are not generated",
+    "np.result_type / np.can_cast on mixtures of str/bytes with another kind are NOT modelled (numpy would answer e.g. <U21): "
+    "_get_common_type_dims raises before calling them; the descriptor tables therefore skip those mixtures",
+    "float payloads: exact multiples of 2^-10 as scaled integers; NaN, +-inf, -0.0 and non-dyadic values as value tokens "
+    "(identical for the same value in float16/32/64) -- integer->float casts never produce them",
+    "complex / datetime / structured dtypes are outside the model and are not generated",
+    "contents at positions flagged missing are uninitialised (np.empty): zeroed on both sides before comparing",
 ]
+
+TOK = 1 << 100           # float value tokens live above every scaled payload the generators can produce (|value| < 2^80)
+F_NAN, F_PINF, F_NINF, F_NZERO = TOK + 1, TOK + 2, TOK + 3, TOK + 4
+ND_BASE = TOK + (1 << 90)
+
+
+# ---------------------------------------------------------------- payload encoding
+def enc_float(v: float) -> int:
+    v = float(v)
+    if v != v:
+        return F_NAN
+    if v == math.inf:
+        return F_PINF
+    if v == -math.inf:
+        return F_NINF
+    if v == 0.0 and math.copysign(1.0, v) < 0:
+        return F_NZERO
+    if abs(v) >= 2.0 ** 80:
+        raise HarnessError(f"float {v!r} beyond the payload encoding")
+    fr = Fraction(v)
+    if (fr * 1024).denominator == 1:
+        return int(fr * 1024)
+    # not a multiple of 2^-10: a token of the exact value n / 2^k (the same for float16/32/64)
+    n, d = fr.numerator, fr.denominator
+    k = d.bit_length() - 1
+    assert d == 1 << k and abs(n) < (1 << 63) and k < (1 << 12)
+    return ND_BASE + (k << 64) + (n + (1 << 63))
+
+
+def dec_float(p: int) -> float:
+    if p == F_NAN:
+        return math.nan
+    if p == F_PINF:
+        return math.inf
+    if p == F_NINF:
+        return -math.inf
+    if p == F_NZERO:
+        return -0.0
+    if p >= ND_BASE:
+        r = p - ND_BASE
+        k, n = r >> 64, (r & ((1 << 64) - 1)) - (1 << 63)
+        return float(Fraction(n, 1 << k))
+    return p / 1024
+
+
+def tok_str(s: str) -> int:
+    return int.from_bytes(b"\x01" + s.encode("utf-8"), "big")
+
+
+def tok_bytes(b: bytes) -> int:
+    return int.from_bytes(b"\x02" + bytes(b), "big")
+
+
+def enc_obj(x) -> int:
+    if x is None:
+        return 4
+    if isinstance(x, (bool, np.bool_)):
+        return 8 * int(x) + 2
+    if isinstance(x, (int, np.integer)):
+        return 8 * int(x) + 0
+    if isinstance(x, (float, np.floating)):
+        return 8 * enc_float(float(x)) + 1
+    if isinstance(x, str):
+        return 8 * tok_str(x) + 3
+    if isinstance(x, bytes):
+        return 8 * tok_bytes(x) + 5
+    raise HarnessError(f"object item outside the encoding: {type(x)}")
+
+
+def dec_obj(item):
+    k = item[0]
+    return {"int": lambda: int(item[1]), "float": lambda: float(item[1]), "bool": lambda: bool(item[1]),
+            "str": lambda: str(item[1]), "none": lambda: None, "bytes": lambda: item[1].encode("ascii")}[k]()
+
+
+def enc_flat(a: np.ndarray) -> list[int]:
+    k = a.dtype.kind
+    items = a.ravel().tolist()
+    if k == "f":
+        return [enc_float(v) for v in items]
+    if k in "biu":
+        return [int(v) for v in items]
+    if k == "U":
+        return [tok_str(v) for v in items]
+    if k == "S":
+        return [tok_bytes(v) for v in items]
+    if k == "O":
+        return [enc_obj(v) for v in a.ravel()]
+    raise HarnessError(f"dtype outside the model: {a.dtype}")
+
+
+def xdt_of(dt) -> dict:
+    dt = np.dtype(dt)
+    if dt.kind not in "biufUSO":
+        raise HarnessError(f"dtype outside the model: {dt}")
+    w = dt.itemsize // 4 if dt.kind == "U" else dt.itemsize if dt.kind == "S" else 0
+    return {"dt": dtype_name(dt), "be": bool(not dt.isnative), "w": int(w)}
+
+
+def xabstract(a: np.ndarray) -> dict:
+    d = xdt_of(a.dtype)
+    d.update({"shape": list(a.shape), "flat": enc_flat(a)})
+    return d
+
+
+def cxdt(d: dict) -> str:
+    return f"(mkd {DTYPE_COQ[d['dt']]} {cbool(d['be'])} {cnat(d['w'])})"
+
+
+def cxvarr(e: dict) -> str:
+    return f"(mkx {cxdt(e)} {clist(e['shape'], cnat)} {clist(e['flat'], cz)})"
+
+
+def cmiss(m) -> str:
+    return copt(m, lambda x: clist(x, cbool))
 
 
 # ---------------------------------------------------------------- values
@@ -38,6 +171,10 @@ def rand_payload(rng: random.Random, dt: str) -> int:
     if dt == "bool":
         return rng.randint(0, 1)
     if dt.startswith("float"):
+        if rng.random() < 0.12:
+            v = rng.choice([math.nan, math.inf, -math.inf, -0.0, 0.1, 1 / 3, 2.0 ** -14, 2.0 ** -24, -1e-3])
+            with np.errstate(all="ignore"):
+                return enc_float(float(np.dtype(dt).type(v)))
         if dt == "float16":
             return rng.choice([0, 1, -1, 512, 1024, -1536, rng.randint(-2047, 2047)])
         return rng.choice([0, 1, -1, 1024, 3 * 512, rng.randint(-4096, 4096), rng.randint(-2**20, 2**20) * 1024])
@@ -46,39 +183,94 @@ def rand_payload(rng: random.Random, dt: str) -> int:
                        rng.randint(max(info.min, -5), min(info.max, 5))])
 
 
+STRS = ["", "a", "b", "ab", "abc", "de", "é", "x y"]
+BYTS = ["", "a", "q", "ab", "xyz"]
+
+
 def mk_array(e: dict) -> np.ndarray:
+    """The numpy array described by a generated element (see rand_elem)."""
     dt = e["dt"]
-    if dt.startswith("float"):
-        vals = [p / 1024 for p in e["flat"]]
-    elif dt == "bool":
-        vals = [bool(p) for p in e["flat"]]
+    shape = tuple(e["shape"])
+    if dt == "str":
+        a = np.array(e["strs"], dtype=f"U{e['w']}").reshape(shape)
+    elif dt == "bytes":
+        a = np.array([s.encode("ascii") for s in e["strs"]], dtype=f"S{e['w']}").reshape(shape)
+    elif dt == "object":
+        a = np.empty(len(e["objs"]), dtype=object)
+        for i, it in enumerate(e["objs"]):
+            a[i] = dec_obj(it)
+        a = a.reshape(shape)
     else:
-        vals = list(e["flat"])
-    return relayout(np.array(vals, dtype=dt).reshape(e["shape"]), e.get("layout")) if e["shape"] != [] else np.array(vals[0], dtype=dt)
+        if dt.startswith("float"):
+            vals = [dec_float(p) for p in e["flat"]]
+        elif dt == "bool":
+            vals = [bool(p) for p in e["flat"]]
+        else:
+            vals = list(e["flat"])
+        with np.errstate(all="ignore"):
+            a = np.array(vals, dtype=dt).reshape(shape)
+    if e.get("be"):
+        a = big_endian(a)
+    if shape != () and e.get("layout"):
+        b = relayout(a, e["layout"])
+        assert b.dtype.str == a.dtype.str
+        a = b
+    return a
 
 
-def rand_elem(rng, dt, rank, maxdim=3) -> dict:
+def rand_elem(rng, dt, rank, maxdim=3, be=None, w=None) -> dict:
     shape = [rng.choice([0, 1, 1, 2, 2, 3][: maxdim + 3]) for _ in range(rank)]
     n = int(np.prod(shape)) if shape else 1
-    e = {"dt": dt, "shape": shape, "flat": [rand_payload(rng, dt) for _ in range(n)]}
+    e = {"dt": dt, "shape": shape}
+    if dt == "str":
+        e["strs"] = [rng.choice(STRS) for _ in range(n)]
+        e["w"] = w if w is not None else max([1] + [len(s) for s in e["strs"]])
+        e["strs"] = [s[: e["w"]] for s in e["strs"]]
+    elif dt == "bytes":
+        e["strs"] = [rng.choice(BYTS) for _ in range(n)]
+        e["w"] = w if w is not None else max([1] + [len(s) for s in e["strs"]])
+        e["strs"] = [s[: e["w"]].rstrip("\0") for s in e["strs"]]
+    elif dt == "object":
+        e["objs"] = [rng.choice([["int", rng.randint(-3, 3)], ["int", 2**64 + 1], ["float", rng.randint(-8, 8) / 4], ["bool", True],
+                                 ["bool", False], ["str", rng.choice(STRS)], ["none"], ["bytes", "q"]]) for _ in range(n)]
+    else:
+        e["flat"] = [rand_payload(rng, dt) for _ in range(n)]
+    if be if be is not None else rng.random() < 0.15:
+        e["be"] = True
     lay = rng.choice(LAYOUTS)
     if lay != "C" and rank >= 1:
         e["layout"] = lay  # memory layout of the array handed to geff; logical contents are 'flat' in C order
     return e
 
 
-def abstract(a: np.ndarray) -> dict:
-    return {"dt": dtype_name(a.dtype), "shape": list(a.shape), "flat": enc_array(a)}
-
-
-def cvarr(e: dict) -> str:
-    return (f"{{| v_dt := {DTYPE_COQ[e['dt']]}; v_shape := {clist(e['shape'], cnat)}; "
-            f"v_flat := {clist(e['flat'], cz)} |}}")
-
-
 # ---------------------------------------------------------------- generation
+XD = [("int32", False), ("int32", True), ("int8", True), ("float16", False), ("float16", True)]
+
+
+def fixed_elem(kind):
+    """one [1]-shaped element of a named descriptor (for the exhaustive pair block of the encoder)"""
+    table = {
+        "<i4": {"dt": "int32", "shape": [1], "flat": [5]},
+        ">i4": {"dt": "int32", "shape": [1], "flat": [5], "be": True},
+        "|i1": {"dt": "int8", "shape": [1], "flat": [5], "be": True},
+        "<U1": {"dt": "str", "shape": [1], "strs": ["a"], "w": 1},
+        ">U1": {"dt": "str", "shape": [1], "strs": ["a"], "w": 1, "be": True},
+        "<U3": {"dt": "str", "shape": [1], "strs": ["abc"], "w": 3},
+        "S1": {"dt": "bytes", "shape": [1], "strs": ["a"], "w": 1},
+        "S3": {"dt": "bytes", "shape": [1], "strs": ["a"], "w": 3},
+        "O": {"dt": "object", "shape": [1], "objs": [["int", 5]]},
+        "<f2": {"dt": "float16", "shape": [1], "flat": [512]},
+        ">f2": {"dt": "float16", "shape": [1], "flat": [512], "be": True},
+    }
+    return dict(table[kind])
+
+
+FIXED = ["<i4", ">i4", "|i1", "<U1", ">U1", "<U3", "S1", "S3", "O", "<f2", ">f2"]
+
+
 def generate(rng: random.Random, tier: str):
-    # exhaustive dtype tables
+    quick = tier == "quick"
+    # exhaustive dtype tables (name level)
     for a in NUM:
         for b in NUM:
             yield {"kind": "cast", "a": a, "b": b}
@@ -88,8 +280,50 @@ def generate(rng: random.Random, tier: str):
             ds = list(ms)
             rng.shuffle(ds)
             yield {"kind": "result", "ds": ds}
-    for _ in range(150 if tier == "quick" else 1500):
+    # the model is a function of the SET of dtypes: every non-empty subset, in several orders
+    for k in range(1, 13):
+        for sub in itertools.combinations(NUM, k):
+            orders = [list(sub)] if quick else [list(sub), list(reversed(sub))]
+            if not quick:
+                sh = list(sub)
+                rng.shuffle(sh)
+                orders.append(sh)
+            for o in orders:
+                yield {"kind": "result", "ds": o}
+    for _ in range(150 if quick else 1500):
         yield {"kind": "result", "ds": [rng.choice(NUM) for _ in range(rng.randint(4, 7))]}
+
+    # descriptor tables: byte order is irrelevant for can_cast / result_type, widths and object matter
+    def xd(dt, be=False, w=0):
+        return {"dt": dt, "be": be, "w": w}
+    for a in NUM:
+        for b in NUM:
+            for ba in (False, True):
+                for bb in (False, True):
+                    if ba or bb:
+                        yield {"kind": "xcast", "a": xd(a, ba), "b": xd(b, bb)}
+        yield {"kind": "xcast", "a": xd(a, rng.random() < 0.5), "b": xd("object")}
+        yield {"kind": "xcast", "a": xd("object"), "b": xd(a)}
+        yield {"kind": "xcast", "a": xd("str", False, 2), "b": xd(a)}
+    yield {"kind": "xcast", "a": xd("object"), "b": xd("object")}
+    for k in ("str", "bytes"):
+        for wa in (1, 2, 3):
+            for wb in (1, 2, 3):
+                yield {"kind": "xcast", "a": xd(k, k == "str" and wa == 2, wa), "b": xd(k, False, wb)}
+        yield {"kind": "xcast", "a": xd("object"), "b": xd(k, False, 2)}
+    yield {"kind": "xcast", "a": xd("str", False, 2), "b": xd("bytes", False, 2)}
+    for _ in range(200 if quick else 2000):
+        r = rng.random()
+        n = rng.randint(1, 5)
+        if r < 0.4:
+            ds = [xd(rng.choice(NUM), rng.random() < 0.4) for _ in range(n)]
+        elif r < 0.6:
+            ds = [xd(rng.choice(NUM + ["object", "object"]), rng.random() < 0.3) for _ in range(n)]
+        elif r < 0.8:
+            ds = [xd("str", rng.random() < 0.3, rng.randint(1, 4)) for _ in range(n)]
+        else:
+            ds = [xd("bytes", False, rng.randint(1, 4)) for _ in range(n)]
+        yield {"kind": "xresult", "ds": ds}
 
     # bounded-exhaustive layouts
     shapes = [[]] + [[a] for a in range(3)] + [[a, b] for a in range(3) for b in range(3)]
@@ -103,34 +337,67 @@ def generate(rng: random.Random, tier: str):
                 cnt = int(np.prod(s)) if s else 1
                 vals.append({"dt": "int16", "shape": list(s), "flat": list(range(ctr, ctr + cnt))})
                 ctr = (ctr + cnt) % 30000
-            yield {"kind": "ser", "vals": vals}
-            yield {"kind": "rt", "vals": vals}
+            miss = [[None], [None, [False] * n, [True] * n, [i % 2 == 0 for i in range(n)]]][n > 0]
+            for m in miss:
+                yield {"kind": "ser", "vals": vals, "missing": m}
+                yield {"kind": "rt", "vals": vals, "missing": m}
+    # dtype identity in the encoder: every ordered pair of named descriptors
+    for a in FIXED:
+        for b in FIXED:
+            yield {"kind": "ser", "vals": [fixed_elem(a), fixed_elem(b)], "missing": None}
+            yield {"kind": "ser", "vals": [fixed_elem(a), fixed_elem(a), fixed_elem(b)], "missing": [False, True, False]}
+        yield {"kind": "rt", "vals": [fixed_elem(a), fixed_elem(a)], "missing": [True, False]}
 
-    nrand = 250 if tier == "quick" else 4000
+    def rand_missing(n):
+        r = rng.random()
+        if r < 0.4:
+            return None
+        if r < 0.9:
+            return [rng.random() < 0.3 for _ in range(n)]
+        return [rng.random() < 0.5 for _ in range(rng.choice([0, n + 1, max(0, n - 1)]))]  # wrong length: handed through as it is
+
+    nrand = 250 if quick else 4000
     for _ in range(nrand):
-        dt = rng.choice(NUM)
+        dt = rng.choice(NUM + ["str", "bytes", "object"])
         rank = rng.choice([0, 1, 1, 2, 2, 3])
         n = rng.choice([0, 1, 2, 3, 4, 6])
-        vals = [rand_elem(rng, dt, rank) for _ in range(n)]
-        yield {"kind": "ser", "vals": vals}
-        yield {"kind": "rt", "vals": vals, "missing": [rng.random() < 0.3 for _ in range(n)] if rng.random() < 0.5 else None}
-    # malformed sequences for the encoder: mixed rank / dtype / non-array
-    for _ in range(60 if tier == "quick" else 600):
+        be = rng.random() < 0.25
+        w = rng.randint(1, 3)
+        vals = [rand_elem(rng, dt, rank, be=be, w=w) for _ in range(n)]
+        yield {"kind": "ser", "vals": vals, "missing": rand_missing(n)}
+        yield {"kind": "rt", "vals": vals, "missing": rand_missing(n)}
+    # malformed sequences for the encoder: mixed rank / dtype / byte order / width / non-array
+    for _ in range(120 if quick else 1200):
         n = rng.randint(2, 4)
-        vals = [rand_elem(rng, rng.choice(NUM[:6]) if rng.random() < 0.5 else "int32", rng.choice([1, 1, 2])) for _ in range(n)]
-        yield {"kind": "ser", "vals": vals}
+        r = rng.random()
+        if r < 0.35:
+            vals = [rand_elem(rng, rng.choice(NUM[:6]) if rng.random() < 0.5 else "int32", rng.choice([1, 1, 2])) for _ in range(n)]
+        elif r < 0.6:   # one dtype name, random byte order per element
+            dt = rng.choice(["int16", "int32", "uint64", "float16", "float64", "int8", "bool", "str"])
+            vals = [rand_elem(rng, dt, 1, be=rng.random() < 0.5, w=2) for _ in range(n)]
+        elif r < 0.8:   # strings / bytes of random widths
+            dt = rng.choice(["str", "bytes"])
+            vals = [rand_elem(rng, dt, 1, be=False, w=rng.randint(1, 3)) for _ in range(n)]
+        elif r < 0.9:   # object next to something else
+            vals = [rand_elem(rng, rng.choice(["object", "object", "int64", "str"]), 1, be=False) for _ in range(n)]
+        else:           # a Python list among the arrays
+            vals = [rand_elem(rng, "int64", 1, be=False) for _ in range(n)]
+            vals[rng.randrange(n)] = {"list": [1, 2]}
+        yield {"kind": "ser", "vals": vals, "missing": rand_missing(n)}
     # arbitrary (possibly out-of-bounds) tables for the decoder
-    for _ in range(120 if tier == "quick" else 1200):
+    for _ in range(120 if quick else 1200):
         ncol = rng.choice([0, 1, 2, 2, 3])
         rows = [[rng.randint(0, 6)] + [rng.randint(0, 3) for _ in range(ncol - 1)] if ncol > 0 else [] for _ in range(rng.randint(0, 4))]
         data = [rng.randint(-9, 9) for _ in range(rng.randint(0, 8))]
-        yield {"kind": "deser", "rows": rows, "data": data}
+        yield {"kind": "deser", "rows": rows, "data": data, "missing": rand_missing(len(rows))}
 
     # ragged user input
     def rand_seq(n):
         seq = []
         pool = rng.choice([NUM, NUM[:9], ["int8", "uint8", "float16"], ["int16", "uint16", "float32"],
-                           ["int64", "uint64", "float64"], ["bool", "int8"], ["int64", "float64"]])
+                           ["int64", "uint64", "float64"], ["bool", "int8"], ["int64", "float64"],
+                           ["str"], ["bytes"], ["object", "int8", "float16", "bool"], ["str", "int8"], ["str", "bytes"],
+                           ["object", "str"], NUM + ["object"]])
         for _ in range(n):
             r = rng.random()
             if r < 0.2:
@@ -139,17 +406,40 @@ def generate(rng: random.Random, tier: str):
                 seq.append(rand_elem(rng, rng.choice(pool), rng.choice([0, 1, 1, 2, 3]), maxdim=2))
             else:
                 # nested python list / scalar: np.asarray does the inference
-                k = rng.choice(["ints", "floats", "scalar", "bools", "empty"])
+                k = rng.choice(["ints", "floats", "scalar", "bools", "empty", "strs", "big", "huge"])
                 py = {"ints": [rng.randint(-5, 5) for _ in range(rng.randint(1, 3))],
                       "floats": [rng.randint(-8, 8) / 4 for _ in range(rng.randint(1, 3))],
-                      "scalar": rng.randint(0, 9), "bools": [True, False][: rng.randint(1, 2)], "empty": []}[k]
+                      "scalar": rng.randint(0, 9), "bools": [True, False][: rng.randint(1, 2)], "empty": [],
+                      "strs": [rng.choice(STRS) for _ in range(rng.randint(1, 2))],
+                      "big": [2**63 + rng.randint(0, 3)], "huge": [2**64 + 1, 1]}[k]
                 seq.append({"py": py})
         return seq
 
-    for _ in range(300 if tier == "quick" else 3000):
-        yield {"kind": "cons", "seq": rand_seq(rng.choice([0, 1, 2, 3, 3, 4, 5, 6]))}
+    def both(seq):
+        yield {"kind": "cons", "seq": seq}
+        yield {"kind": "pipe", "seq": seq}
+
+    # the cast that is NOT exact (open finding int64-rounded-through-float64) and its exact neighbours
+    for seq in ([{"dt": "int64", "shape": [1], "flat": [2**53 + 1]}, {"dt": "float16", "shape": [0], "flat": []}],
+                [{"dt": "int64", "shape": [2], "flat": [2**53, -2**53]}, {"dt": "float16", "shape": [0], "flat": []}],
+                [{"py": [2**53 + 1, -128]}, {"py": []}],
+                [{"dt": "uint64", "shape": [1], "flat": [2**64 - 1]}, {"dt": "int8", "shape": [1], "flat": [-1]}],
+                [{"dt": "int64", "shape": [], "flat": [2**63 - 1]}, None, {"dt": "float32", "shape": [1], "flat": [512]}],
+                [{"dt": "uint64", "shape": [1], "flat": [2**53 + 2]}, {"dt": "float64", "shape": [1], "flat": [1024]}]):
+        yield from both(seq)
+    # byte order, widths, objects, strings: fixed distinguishing inputs
+    for seq in ([fixed_elem(">i4"), fixed_elem("<i4")], [fixed_elem(">i4")], [fixed_elem(">i4"), None],
+                [fixed_elem(">f2"), fixed_elem("|i1")], [fixed_elem("<U1"), fixed_elem("<U3")], [fixed_elem(">U1"), None],
+                [fixed_elem("S1"), fixed_elem("S3"), None], [fixed_elem("O"), fixed_elem("<i4")], [fixed_elem("<i4"), fixed_elem("O")],
+                [fixed_elem("O"), fixed_elem("<f2"), None], [fixed_elem("O"), fixed_elem("<U1")], [fixed_elem("S1"), fixed_elem("<U1")],
+                [fixed_elem("<U1"), fixed_elem("<i4")], [fixed_elem("S1"), fixed_elem("<i4")], [fixed_elem("O"), fixed_elem("S1")],
+                [{"dt": "object", "shape": [], "objs": [["none"]]}, None],
+                [{"dt": "bool", "shape": [2], "flat": [1, 0]}, fixed_elem("O")]):
+        yield from both(seq)
+    for _ in range(300 if quick else 3000):
+        yield from both(rand_seq(rng.choice([0, 1, 2, 3, 3, 4, 5, 6])))
     # all permutations of short sequences (order-freeness, also fed to the model)
-    for _ in range(40 if tier == "quick" else 300):
+    for _ in range(40 if quick else 300):
         seq = rand_seq(rng.choice([2, 3, 3, 4]))
         for perm in itertools.permutations(range(len(seq))):
             yield {"kind": "cons", "seq": [seq[i] for i in perm]}
@@ -158,9 +448,9 @@ def generate(rng: random.Random, tier: str):
                ["int64", "int8"], ["float64", "int64"], ["uint64", "int64"], ["int8", "int16", "int8"]):
         for perm in itertools.permutations(tr):
             yield {"kind": "cons", "seq": [{"dt": d, "shape": [1], "flat": [1]} for d in perm]}
-    # strings: oracle only
+    # strings given as Python lists
     for s in ([{"py": ["a"]}, {"py": ["abc", "de"]}], [{"py": ["abc"]}, {"py": ["a"]}], [{"py": [2]}, {"py": ["a"]}], [{"py": ["a"]}, {"py": [2]}]):
-        yield {"kind": "cons", "seq": s}
+        yield from both(s)
 
 
 def to_input(x):
@@ -168,24 +458,42 @@ def to_input(x):
         return None
     if "py" in x:
         return x["py"]
+    if "list" in x:
+        return x["list"]
     return mk_array(x)
 
 
+def as_array(x) -> np.ndarray:
+    """np.asarray of a generated element: the abstraction boundary for nested lists / scalars"""
+    return np.asarray(to_input(x))
+
+
 # ---------------------------------------------------------------- implementation
+def obs_elems(seq_or_none, arrs):
+    """abstract a list of output arrays; contents of elements at None positions are don't-care: zeroed"""
+    out = []
+    for i, a in enumerate(arrs):
+        if not isinstance(a, np.ndarray):
+            return None
+        e = xabstract(a)
+        if seq_or_none is not None and i < len(seq_or_none) and seq_or_none[i] is None:
+            e["flat"] = [0] * len(e["flat"])
+        out.append(e)
+    return out
+
+
+def miss_list(m):
+    return None if m is None else [bool(b) for b in m]
+
+
 def run_cons(seq):
     from geff.core_io import construct_var_len_props
 
     try:
         d = construct_var_len_props([to_input(x) for x in seq])
     except Exception as e:
-        return ["err", exn_name(e)]
-    vals = []
-    for i, a in enumerate(d["values"]):
-        if not isinstance(a, np.ndarray):
-            return ["err", "OtherExn"]
-        vals.append(a)
-    miss = None if d["missing"] is None else [bool(b) for b in d["missing"]]
-    return ["ok", vals, miss]
+        return ["err", exn_name(e)], None
+    return None, d
 
 
 def run_impl(c):
@@ -204,55 +512,77 @@ def run_impl(c):
             return dtype_name(np.result_type(*[np.dtype(d) for d in c["ds"]]))
         except TypeError:
             return None
+    if k == "xcast":
+        return bool(np.can_cast(np_dtype(c["a"]), np_dtype(c["b"])))
+    if k == "xresult":
+        try:
+            return xdt_of(np.result_type(*[np_dtype(d) for d in c["ds"]]))
+        except TypeError:
+            return None
     if k in ("ser", "rt"):
         vals = np.empty(len(c["vals"]), dtype=object)
         for i, e in enumerate(c["vals"]):
-            vals[i] = mk_array(e)
-        missing = None
-        if c.get("missing") is not None:
-            missing = np.array(c["missing"], dtype=bool)
+            vals[i] = to_input(e)
+        missing = None if c.get("missing") is None else np.array(c["missing"], dtype=bool)
         try:
             values, miss, data = serialize_vlen_property_data({"values": vals, "missing": missing})
         except Exception as e:
             return ["err", exn_name(e)]
-        ser = ["ok", values.tolist() if values.ndim == 2 else [], enc_array(data), dtype_name(data.dtype),
-               str(values.dtype), None if miss is None else [bool(b) for b in miss]]
+        ser = ["ok", values.tolist() if values.ndim == 2 else [], miss_list(miss), enc_flat(data), xdt_of(data.dtype),
+               str(values.dtype)]
         if k == "ser":
             return ser
         try:
             dec = deserialize_vlen_property_data(values, miss, data)
         except Exception as e:
             return {"ser": ser, "dec": ["err", exn_name(e)]}
-        return {"ser": ser, "dec": ["ok", [abstract(a) for a in dec["values"]],
-                                    None if dec["missing"] is None else [bool(b) for b in dec["missing"]]]}
+        return {"ser": ser, "dec": ["ok", obs_elems(None, list(dec["values"])), miss_list(dec["missing"])]}
     if k == "deser":
         ncol = len(c["rows"][0]) if c["rows"] else 1
         values = np.array(c["rows"], dtype=np.uint64).reshape((len(c["rows"]), ncol))
         data = np.array(c["data"], dtype=np.int64)
+        missing = None if c.get("missing") is None else np.array(c["missing"], dtype=bool)
         try:
-            dec = deserialize_vlen_property_data(values, None, data)
+            dec = deserialize_vlen_property_data(values, missing, data)
         except Exception as e:
             return ["err", exn_name(e)]
-        return ["ok", [abstract(a) for a in dec["values"]]]
+        return ["ok", obs_elems(None, list(dec["values"])), miss_list(dec["missing"])]
     if k == "cons":
-        r = run_cons(c["seq"])
-        if r[0] == "ok":
-            # contents at missing positions are uninitialised (np.empty): don't-care, zero them
-            r[1] = [np.zeros_like(a) if x is None and a.dtype.kind not in "USO" else a for x, a in zip(c["seq"], r[1])]
-            return ["ok", [abstract(a) if a.dtype.kind not in "USO" else {"dt": dtype_name(a.dtype), "shape": list(a.shape), "flat": a.ravel().tolist()} for a in r[1]], r[2]]
-        return r
+        err, d = run_cons(c["seq"])
+        if err:
+            return err
+        el = obs_elems(c["seq"], list(d["values"]))
+        return ["err", "OtherExn"] if el is None else ["ok", el, miss_list(d["missing"])]
+    if k == "pipe":
+        err, d = run_cons(c["seq"])
+        if err:
+            return err
+        try:
+            values, miss, data = serialize_vlen_property_data(d)
+            dec = deserialize_vlen_property_data(values, miss, data)
+        except Exception as e:
+            return ["err", exn_name(e)]
+        el = obs_elems(c["seq"], list(dec["values"]))
+        return ["err", "OtherExn"] if el is None else ["ok", el, miss_list(dec["missing"])]
     raise ValueError(k)
 
 
+def np_dtype(d: dict) -> np.dtype:
+    if d["dt"] == "str":
+        dt = np.dtype(f"U{d['w']}")
+    elif d["dt"] == "bytes":
+        dt = np.dtype(f"S{d['w']}")
+    else:
+        dt = np.dtype(d["dt"])
+    return dt.newbyteorder(">") if d["be"] else dt
+
+
 # ---------------------------------------------------------------- Coq terms
-def numeric_seq(seq) -> bool:
-    for x in seq:
-        if x is None:
-            continue
-        a = np.asarray(to_input(x))
-        if a.dtype.kind in "USO":
-            return False
-    return True
+def cvals(o) -> str:
+    """OXVals of an observation ['ok', elems, missing] | ['err', name]"""
+    if o[0] == "ok":
+        return f"OXVals (Ok ({clist(o[1], cxvarr)}, {cmiss(o[2])}))"
+    return f"OXVals (Err {o[1]})"
 
 
 def coq_case(c, o):
@@ -263,67 +593,103 @@ def coq_case(c, o):
         return f"(IPromote {DTYPE_COQ[c['a']]} {DTYPE_COQ[c['b']]}, ODt {copt(o, lambda d: DTYPE_COQ[d])})"
     if k == "result":
         return f"(IResult {clist(c['ds'], lambda d: DTYPE_COQ[d])}, ODt {copt(o, lambda d: DTYPE_COQ[d])})"
+    if k == "xcast":
+        return f"(IXCast {cxdt(canon(c['a']))} {cxdt(canon(c['b']))}, OBool {cbool(o)})"
+    if k == "xresult":
+        return f"(IXResult {clist([canon(d) for d in c['ds']], cxdt)}, OXDt {copt(o, cxdt)})"
     if k == "ser":
-        inp = f"ISer {clist(c['vals'], cvarr)}"
+        if any("list" in e for e in c["vals"]):
+            return None  # a non-array element has no counterpart in `list xvarr` (ASSUMPTIONS)
+        inp = f"IXSer {clist([xabstract(mk_array(e)) for e in c['vals']], cxvarr)} {cmiss(c.get('missing'))}"
         if o[0] == "ok":
-            ob = f"OSer (Ok ({clist(o[1], lambda r: clist(r, cnat))}, {clist(o[2], cz)}, {DTYPE_COQ[o[3]]}))"
+            ob = f"OXSer (Ok ({clist(o[1], lambda r: clist(r, cnat))}, {cmiss(o[2])}, {clist(o[3], cz)}, {cxdt(o[4])}))"
         else:
-            ob = f"OSer (Err {o[1]})"
+            ob = f"OXSer (Err {o[1]})"
         return f"({inp}, {ob})"
     if k == "rt":
         if isinstance(o, list):  # encoder refused: nothing to decode
             return None
         ser, dec = o["ser"], o["dec"]
-        inp = f"IDeser {clist(ser[1], lambda r: clist(r, cnat))} {clist(ser[2], cz)}"
-        if dec[0] == "ok":
-            ob = "ODeser (Ok " + clist(dec[1], lambda e: f"({clist(e['shape'], cnat)}, {clist(e['flat'], cz)})") + ")"
-        else:
-            ob = f"ODeser (Err {dec[1]})"
-        return f"({inp}, {ob})"
+        inp = f"IXDeser {clist(ser[1], lambda r: clist(r, cnat))} {cmiss(ser[2])} {cxdt(ser[4])} {clist(ser[3], cz)}"
+        return f"({inp}, {cvals(dec)})"
     if k == "deser":
-        inp = f"IDeser {clist(c['rows'], lambda r: clist(r, cnat))} {clist(c['data'], cz)}"
-        if o[0] == "ok":
-            ob = "ODeser (Ok " + clist(o[1], lambda e: f"({clist(e['shape'], cnat)}, {clist(e['flat'], cz)})") + ")"
-        else:
-            ob = f"ODeser (Err {o[1]})"
-        return f"({inp}, {ob})"
-    if k == "cons":
-        if not numeric_seq(c["seq"]):
-            return None
-        items = []
-        for x in c["seq"]:
-            items.append("None" if x is None else f"(Some {cvarr(abstract(np.asarray(to_input(x))))})")
-        inp = f"ICons {clist(items)}"
-        if o[0] == "ok":
-            vals = []
-            for x, e in zip(c["seq"], o[1]):
-                e = dict(e)
-                if x is None:  # contents at missing positions are don't-care (np.empty): zero them
-                    e["flat"] = [0] * len(e["flat"])
-                vals.append(e)
-            ob = f"OCons (Ok ({clist(vals, cvarr)}, {copt(o[2], lambda m: clist(m, cbool))}))"
-        else:
-            ob = f"OCons (Err {o[1]})"
-        return f"({inp}, {ob})"
+        inp = (f"IXDeser {clist(c['rows'], lambda r: clist(r, cnat))} {cmiss(c.get('missing'))} "
+               f"{cxdt({'dt': 'int64', 'be': False, 'w': 0})} {clist(c['data'], cz)}")
+        return f"({inp}, {cvals(o)})"
+    if k in ("cons", "pipe"):
+        items = ["None" if x is None else f"(Some {cxvarr(xabstract(as_array(x)))})" for x in c["seq"]]
+        return f"({'IXCons' if k == 'cons' else 'IXPipe'} {clist(items)}, {cvals(o)})"
     raise ValueError(k)
 
 
+def canon(d: dict) -> dict:
+    """descriptor of the numpy dtype actually built from d (a byte-order request on a 1-byte dtype has no effect)"""
+    return xdt_of(np_dtype(d))
+
+
 # ---------------------------------------------------------------- oracle (from the property text)
+def value_of(dt: str, p: int):
+    """the value a payload stands for (independent of the dtype width): exact rational, text, Python object"""
+    if dt == "bool":
+        return ("num", Fraction(int(p)), "bool")
+    if dt.startswith("float"):
+        return ("tok", p, "float") if p >= TOK else ("num", Fraction(p, 1024), "float")
+    if dt in ("str", "bytes"):
+        return (dt, p, dt)
+    if dt == "object":
+        tag, v = p % 8, p // 8
+        if tag == 0:
+            return ("num", Fraction(v), "int")
+        if tag == 1:
+            return ("tok", v, "float") if v >= TOK else ("num", Fraction(v, 1024), "float")
+        if tag == 2:
+            return ("num", Fraction(v), "bool")
+        return ("obj", p, "obj")
+    return ("num", Fraction(int(p)), "int")
+
+
+def same_value(dt_in, p_in, dt_out, p_out) -> bool:
+    a, b = value_of(dt_in, p_in), value_of(dt_out, p_out)
+    if a[:2] != b[:2]:
+        return False
+    if dt_out == "object" and dt_in != "object":
+        return a[2] == b[2]  # a number stored in an object array keeps its Python kind (int / float / bool)
+    return True
+
+
+def type_string(a: np.ndarray) -> str:
+    return a.dtype.str  # '<i4', '>i4', '|i1', '<U3', '|S2', '|O': byte order and width spelled out
+
+
 def oracle(c, o):
     k = c["kind"]
-    if k in ("cast", "promote", "result", "deser"):
+    if k in ("cast", "promote", "result", "xcast", "xresult"):
+        return None
+    if k == "deser":
+        if o[0] == "ok" and o[2] != c.get("missing"):
+            return Failure(c, o, "decoder changed the missing flags", {"kind": "deser", "why": "missing"})
         return None
     if k == "ser":
+        if any("list" in e for e in c["vals"]):
+            if o != ["err", "ValueError"]:
+                return Failure(c, o, "a non-array element is not rejected with ValueError", {"kind": "ser", "why": "accepts-non-array"})
+            return None
         vals = [mk_array(e) for e in c["vals"]]
-        uniform = len({a.ndim for a in vals}) <= 1 and len({a.dtype for a in vals}) <= 1
+        uniform = len({a.ndim for a in vals}) <= 1 and len({type_string(a) for a in vals}) <= 1
         if o[0] == "err":
             if uniform:
                 return Failure(c, o, "encoder rejects a sequence of one rank and dtype", {"kind": "ser", "why": "rejects-uniform"})
+            if o[1] != "ValueError":
+                return Failure(c, o, f"mixed sequence rejected with {o[1]}, not ValueError", {"kind": "ser", "why": "exception-class"})
             return None
         if not uniform:
-            return None  # accepting more is not a loss claim of C11 (decoding is checked by rt)
-        rows, data = o[1], o[2]
+            return Failure(c, o, "encoder accepts elements of several ranks / dtypes (byte order and width are part of the dtype): "
+                           f"{[type_string(a) for a in vals]} ranks {[a.ndim for a in vals]}", {"kind": "ser", "why": "accepts-nonuniform"})
+        rows, miss, data, ddt = o[1], o[2], o[3], o[4]
         off = 0
+        exp = []
+        if len(rows) != len(vals):
+            return Failure(c, o, "one table row per element expected", {"kind": "ser", "why": "count"})
         for r, a in zip(rows, vals):
             if r[0] != off:
                 return Failure(c, o, f"offsets not contiguous: row {r} expected offset {off}", {"kind": "ser", "why": "contiguity"})
@@ -332,32 +698,41 @@ def oracle(c, o):
             off += a.size
             if off > len(data):
                 return Failure(c, o, f"slice of row {r} exceeds data length {len(data)}", {"kind": "ser", "why": "bounds"})
-        if rows and o[4] != "uint64":
-            return Failure(c, o, f"values table dtype {o[4]}", {"kind": "ser", "why": "table-dtype"})
+            exp += enc_flat(a)
+        if data != exp:
+            return Failure(c, o, "data is not the concatenation of the elements", {"kind": "ser", "why": "data"})
+        if rows and o[5] != "uint64":
+            return Failure(c, o, f"values table dtype {o[5]}", {"kind": "ser", "why": "table-dtype"})
+        if vals and (ddt["dt"], ddt["w"]) != (dtype_name(vals[0].dtype), xdt_of(vals[0].dtype)["w"]):
+            return Failure(c, o, f"data dtype {ddt} is not the element dtype {vals[0].dtype}", {"kind": "ser", "why": "data-dtype"})
+        if miss != c.get("missing"):
+            return Failure(c, o, "missing flags changed by the encoder", {"kind": "ser", "why": "missing"})
         return None
     if k == "rt":
         if isinstance(o, list):
             return None
         dec = o["dec"]
         vals = [mk_array(e) for e in c["vals"]]
-        if len({a.ndim for a in vals}) > 1 or len({a.dtype for a in vals}) > 1:
+        if len({a.ndim for a in vals}) > 1 or len({type_string(a) for a in vals}) > 1:
             return None
         if dec[0] == "err":
             return Failure(c, o, f"decoding the encoder's own output raises {dec[1]}", {"kind": "rt", "why": "decode-raises"})
         if len(dec[1]) != len(vals):
             return Failure(c, o, "element count changed", {"kind": "rt", "why": "count"})
         for e, a in zip(dec[1], vals):
-            if e["dt"] != dtype_name(a.dtype) or e["shape"] != list(a.shape) or e["flat"] != enc_array(a):
-                return Failure(c, o, f"element changed: {abstract(a)} -> {e}", {"kind": "rt", "why": "element"})
+            x = xabstract(a)
+            # identical dtype up to byte order (name and width), identical shape and contents
+            if (e["dt"], e["w"]) != (x["dt"], x["w"]) or e["shape"] != x["shape"] or e["flat"] != x["flat"]:
+                return Failure(c, o, f"element changed: {x} -> {e}", {"kind": "rt", "why": "element"})
         if dec[2] != c.get("missing"):
             return Failure(c, o, "missing flags changed", {"kind": "rt", "why": "missing"})
         return None
-    if k == "cons":
+    if k in ("cons", "pipe"):
         seq = c["seq"]
-        arrays = [None if x is None else np.asarray(to_input(x)) for x in seq]
+        arrays = [None if x is None else as_array(x) for x in seq]
         nn = [a for a in arrays if a is not None]
         f = check_normalised(c, o, arrays, nn)
-        if f is not None:
+        if f is not None or k == "pipe":
             return f
         # order independence: outcome, dtype and rank under permutations
         n = len(seq)
@@ -370,18 +745,16 @@ def oracle(c, o):
             perms = [tuple(reversed(range(n)))] + [tuple(r.sample(range(n), n)) for _ in range(3)]
         sig0 = signature(o)
         for p in perms:
-            o2 = run_cons([seq[i] for i in p])
-            o2n = ["ok", [{"dt": dtype_name(a.dtype), "shape": list(a.shape)} for a in o2[1]], o2[2]] if o2[0] == "ok" else o2
-            if signature(o2n) != sig0:
-                return Failure(c, o, f"normalisation depends on element order: {sig0} vs {signature(o2n)} for permutation {p}",
+            pseq = [seq[i] for i in p]
+            o2 = run_impl({"kind": "cons", "seq": pseq})
+            if signature(o2) != sig0:
+                return Failure(c, o, f"normalisation depends on element order: {sig0} vs {signature(o2)} for permutation {p}",
                                {"kind": "cons", "why": "order-dependent"})
             if o2[0] == "ok" and o[0] == "ok":
                 for j, i in enumerate(p):
                     if arrays[i] is None:
                         continue
-                    e = o[1][i]
-                    a2 = o2[1][j]
-                    if e["shape"] != list(a2.shape) or e["flat"] != (enc_array(a2) if a2.dtype.kind not in "USO" else a2.ravel().tolist()):
+                    if o[1][i]["shape"] != o2[1][j]["shape"] or o[1][i]["flat"] != o2[1][j]["flat"]:
                         return Failure(c, o, "normalised element differs under permutation", {"kind": "cons", "why": "order-dependent-values"})
         return None
     return None
@@ -390,54 +763,68 @@ def oracle(c, o):
 def signature(o):
     if o[0] == "err":
         return ("err", o[1])
-    dts = {e["dt"] for e in o[1]}
+    dts = {(e["dt"], e["be"], e["w"]) for e in o[1]}
     ranks = {len(e["shape"]) for e in o[1]}
     return ("ok", tuple(sorted(dts)), tuple(sorted(ranks)))
 
 
 def check_normalised(c, o, arrays, nn):
+    kind = c["kind"]
+    kinds = {a.dtype.kind for a in nn}
+    string_mix = len(kinds) > 1 and bool(kinds & {"U", "S"})
     if o[0] == "err":
-        # must be cast-incompatible: no numpy dtype all can be safely cast to
         if not nn:
-            return Failure(c, o, "all-None / empty sequence rejected", {"kind": "cons", "why": "rejects-empty"})
-        try:
-            common = np.result_type(*[a.dtype for a in nn])
-            if all(np.can_cast(a.dtype, common) for a in nn) and all(a.dtype.kind not in "USO" for a in nn):
-                return Failure(c, o, f"cast-compatible sequence (common dtype {common}) rejected with {o[1]}",
-                               {"kind": "cons", "why": "rejects-compatible"})
-        except TypeError:
-            pass
+            return Failure(c, o, "all-None / empty sequence rejected", {"kind": kind, "why": "rejects-empty"})
+        if not string_mix:
+            # must be cast-incompatible: no numpy dtype all can be safely cast to
+            try:
+                common = np.result_type(*[a.dtype for a in nn])
+                if all(np.can_cast(a.dtype, common) for a in nn):
+                    return Failure(c, o, f"cast-compatible sequence (common dtype {common}) rejected with {o[1]}",
+                                   {"kind": kind, "why": "rejects-compatible"})
+            except TypeError:
+                pass
         if o[1] != "ValueError":
-            return Failure(c, o, f"incompatible sequence rejected with {o[1]}, not ValueError", {"kind": "cons", "why": "exception-class"})
+            return Failure(c, o, f"incompatible sequence rejected with {o[1]}, not ValueError", {"kind": kind, "why": "exception-class"})
         return None
+    if string_mix:
+        return Failure(c, o, "text mixed with another kind is accepted (numbers would be turned into text)", {"kind": kind, "why": "accepts-string-mix"})
     out, miss = o[1], o[2]
     if len(out) != len(arrays):
-        return Failure(c, o, "length changed", {"kind": "cons", "why": "length"})
+        return Failure(c, o, "length changed", {"kind": kind, "why": "length"})
     exp_miss = [a is None for a in arrays]
     if (miss if miss is not None else [False] * len(arrays)) != exp_miss:
-        return Failure(c, o, f"missing flags {miss} != {exp_miss}", {"kind": "cons", "why": "missing"})
+        return Failure(c, o, f"missing flags {miss} != {exp_miss}", {"kind": kind, "why": "missing"})
     if miss is not None and not any(exp_miss):
-        return Failure(c, o, "missing array returned though nothing is missing", {"kind": "cons", "why": "missing"})
-    dts = {e["dt"] for e in out}
+        return Failure(c, o, "missing array returned though nothing is missing", {"kind": kind, "why": "missing"})
+    dts = {(e["dt"], e["be"], e["w"]) for e in out}
     ranks = {len(e["shape"]) for e in out}
     if len(dts) > 1 or len(ranks) > 1:
-        return Failure(c, o, f"elements of several dtypes/ranks: {dts} {ranks}", {"kind": "cons", "why": "not-uniform"})
+        return Failure(c, o, f"elements of several dtypes/ranks: {dts} {ranks}", {"kind": kind, "why": "not-uniform"})
     if not nn:
+        if out and (next(iter(dts)) != ("int64", False, 0) or ranks != {1}):
+            return Failure(c, o, f"all-None sequence: {dts} {ranks}, documented int64 / 1", {"kind": kind, "why": "default"})
         return None
     dt = next(iter(dts))
     R = max(a.ndim for a in nn)
     if next(iter(ranks)) != R:
-        return Failure(c, o, f"rank {ranks} is not the maximum input rank {R}", {"kind": "cons", "why": "rank"})
+        return Failure(c, o, f"rank {ranks} is not the maximum input rank {R}", {"kind": kind, "why": "rank"})
     for a, e in zip(arrays, out):
         if a is None:
+            if any(d != 0 for d in e["shape"]):
+                return Failure(c, o, f"missing entry is not an empty array: shape {e['shape']}", {"kind": kind, "why": "missing-shape"})
             continue
-        if a.dtype.kind in "USO":
-            continue
-        if not np.can_cast(a.dtype, np.dtype(dt if dt != "str" else "U")):
-            return Failure(c, o, f"common dtype {dt} is not a safe cast target for {a.dtype}", {"kind": "cons", "why": "unsafe-cast"})
-        exp = a.astype(dt).reshape((1,) * (R - a.ndim) + a.shape)
-        if e["shape"] != list(exp.shape) or e["flat"] != enc_array(exp):
-            return Failure(c, o, f"contents differ from cast+pad of the input: {abstract(exp)} vs {e}", {"kind": "cons", "why": "contents"})
+        if not np.can_cast(a.dtype, np_dtype({"dt": dt[0], "be": dt[1], "w": dt[2]})):
+            return Failure(c, o, f"common dtype {dt} is not a safe cast target for {a.dtype}", {"kind": kind, "why": "unsafe-cast"})
+        if e["shape"] != [1] * (R - a.ndim) + list(a.shape):
+            return Failure(c, o, f"shape {e['shape']} is not {a.shape} padded with leading axes to rank {R}", {"kind": kind, "why": "contents"})
+        x = xabstract(a)
+        for pi, po in zip(x["flat"], e["flat"]):
+            if not same_value(x["dt"], pi, e["dt"], po):
+                if x["dt"] in ("int64", "uint64") and e["dt"] == "float64" and abs(pi) > 2**53:
+                    return Failure(c, o, f"{x['dt']} value {pi} came back as {Fraction(po, 1024)} (cast to float64 rounds beyond 2^53)",
+                                   {"kind": kind, "why": "cast-inexact", "int64_to_float64": True})
+                return Failure(c, o, f"contents differ from the input: {x} vs {e}", {"kind": kind, "why": "contents"})
     return None
 
 
@@ -445,10 +832,12 @@ def nontrivial(c, o):
     k = c["kind"]
     if k in ("cast", "promote"):
         return c["a"] != c["b"]
-    if k == "result":
-        return len(set(c["ds"])) > 1
+    if k == "xcast":
+        return True
+    if k in ("result", "xresult"):
+        return len({repr(d) for d in c["ds"]}) > 1
     if k in ("ser", "rt"):
-        return any(e["flat"] for e in c["vals"])
+        return any(e.get("flat") or e.get("strs") or e.get("objs") for e in c["vals"]) or (isinstance(o, list) and o[0] == "err")
     if k == "deser":
         return bool(c["rows"])
     return len(c["seq"]) > 1
@@ -457,16 +846,18 @@ def nontrivial(c, o):
 def describe(c, o):
     k = c["kind"]
     if k in ("ser", "rt"):
-        dt = c["vals"][0]["dt"] if c["vals"] else "-"
-        rank = len(c["vals"][0]["shape"]) if c["vals"] else "-"
+        v0 = c["vals"][0] if c["vals"] else {}
+        dt = v0.get("dt", "list" if v0 else "-")
+        rank = len(v0["shape"]) if "shape" in v0 else "-"
         out = "err" if (isinstance(o, list) and o[0] == "err") else "ok"
-        return f"{k}:n={len(c['vals'])}:rank={rank}:{dt}:{out}"
-    if k == "cons":
-        return f"cons:n={len(c['seq'])}:nones={sum(x is None for x in c['seq'])}:{o[0]}{':' + o[1] if o[0] == 'err' else ''}"
+        mixed = "be" if len({bool(e.get("be")) for e in c["vals"]}) > 1 else ""
+        return f"{k}:n={len(c['vals'])}:rank={rank}:{dt}{mixed}:{'m' if c.get('missing') is not None else '-'}:{out}"
+    if k in ("cons", "pipe"):
+        return f"{k}:n={len(c['seq'])}:nones={sum(x is None for x in c['seq'])}:{o[0]}{':' + o[1] if o[0] == 'err' else ''}"
     if k == "deser":
         return f"deser:{o[0]}{':' + o[1] if o[0] == 'err' else ''}"
-    if k == "result":
-        return f"result:n={len(c['ds'])}"
+    if k in ("result", "xresult"):
+        return f"{k}:n={len(c['ds'])}"
     return k
 
 
